@@ -1,10 +1,11 @@
 import Litep2pVerif.Proofs.Noise.Transport
+import Litep2pVerif.Proofs.Noise.Align
 import Litep2pVerif.Generated.Consts
 /-!
 # C02 — Noise transport delivers the exact byte stream or fails
 
 Property theorems only (model: `Model/Noise/Transport.lean`, lemmas and invariants:
-`Proofs/Noise/Transport.lean`). `realParams F W` are the constants regenerated from
+`Proofs/Noise/Transport.lean`, alignment invariant and liveness: `Proofs/Noise/Align.lean`). `realParams F W` are the constants regenerated from
 `src/crypto/noise/mod.rs` and snow's `constants.rs` on every run; the arithmetic side conditions on
 them are discharged by `decide` (`real_params_ok`), so changing a constant re-checks them.
 
@@ -21,17 +22,20 @@ theorem term_model_laws (F W : Nat) :
     WireLaws (realParams F W) (termWire (realParams F W).T) := by
   exact termLaws _ (show 1 ≤ Consts.SNOW_TAGLEN by decide)
 
-/-- Side conditions on the extracted constants: `NOISE_EXTRA_ENCRYPT_SPACE` is snow's tag length,
-`MAX_FRAME_LEN ≥ 1`, **`MAX_FRAME_LEN + TAGLEN ≤ snow MAXMSGLEN`** (false before the fix of §8-a:
-65520 + 16 > 65535), and a `u16::MAX` frame fits behind the read-ahead area. -/
+/-- Side conditions on the extracted constants: `NOISE_EXTRA_ENCRYPT_SPACE` is snow's tag length
+(and it is ≥ 1), `MAX_FRAME_LEN ≥ 1`, **`MAX_FRAME_LEN + TAGLEN ≤ snow MAXMSGLEN`** (false before the fix
+of §8-a: 65520 + 16 > 65535), a `u16::MAX` frame fits behind the read-ahead area, and every
+ciphertext length fits the `u16` prefix (`MAXMSGLEN < 65536`). -/
 theorem real_params_ok (F W : Nat) :
-    WConsts (realParams F W) ∧ (1 ≤ F → RConsts (realParams F W)) := by
+    WConsts (realParams F W) ∧ (1 ≤ F → AConsts (realParams F W)) := by
   have h1 : Consts.SNOW_TAGLEN = Consts.NOISE_EXTRA_ENCRYPT_SPACE := by decide
   have h2 : 1 ≤ Consts.MAX_NOISE_MSG_LEN - Consts.NOISE_EXTRA_ENCRYPT_SPACE := by decide
   have h3 : Consts.MAX_NOISE_MSG_LEN - Consts.NOISE_EXTRA_ENCRYPT_SPACE + Consts.SNOW_TAGLEN
       ≤ Consts.SNOW_MAXMSGLEN := by decide
   have h4 : 65533 ≤ Consts.MAX_NOISE_MSG_LEN := by decide
-  exact ⟨⟨h1, h2, h3⟩, fun h => ⟨h1, h, h4⟩⟩
+  have h5 : 1 ≤ Consts.SNOW_TAGLEN := by decide
+  have h6 : Consts.SNOW_MAXMSGLEN < 65536 := by decide
+  exact ⟨⟨h1, h2, h3⟩, fun h => ⟨⟨h1, h, h4⟩, ⟨h1, h2, h3⟩, h5, h6⟩⟩
 
 example : (realParams 5 2).MAXF + (realParams 5 2).T = (realParams 5 2).SNOWMAX := by decide
 
@@ -106,44 +110,131 @@ theorem read_no_oob {C : Type} (w : WireOps C) (F W : Nat) (hF : 1 ≤ F) (hl : 
     (B : Nat) (frames : List Chunk) (hfr : FramesFrom B 0 frames) (es : List (REvent C))
     (hauth : Authentic w frames (delivered es)) :
     NoPanic (runReader (realParams F W) w (newReadSock (realParams F W) w) ⟨#[], 0, [], false⟩ es) := by
-  have hc := (real_params_ok F W).2 hF
+  have hc := ((real_params_ok F W).2 hF).r
   exact (runReader_inv (realParams F W) w hl hc B frames hfr es _ _ (RInv_init _ w hc ⟨#[], 0, [], false⟩ rfl) 0
     (SInv_init _ w frames) (by simpa using hauth) (Nat.zero_le _)).1
 
-/-- **read_stream_eq (prefix half; see the report for the missing half).** Same quantifiers as
-`read_no_oob`: the concatenation of all bytes returned by the reader is a prefix of the writer's
-plaintext stream (stream positions `0,1,2,…` in order, without loss, duplication or reordering).
-Holds for arbitrary delivered streams, in particular for every prefix of the honest wire. -/
-theorem read_stream_eq_partial {C : Type} (w : WireOps C) (F W : Nat) (hF : 1 ≤ F)
-    (hl : WireLaws (realParams F W) w) (B : Nat) (frames : List Chunk) (hfr : FramesFrom B 0 frames)
-    (es : List (REvent C)) (hauth : Authentic w frames (delivered es)) :
-    outBytes (runReader (realParams F W) w (newReadSock (realParams F W) w) ⟨#[], 0, [], false⟩ es)
-      <+: List.range (plen frames) := by
-  have hc := (real_params_ok F W).2 hF
-  obtain ⟨_, m, h1, h2⟩ := runReader_inv (realParams F W) w hl hc B frames hfr es _ _ (RInv_init _ w hc ⟨#[], 0, [], false⟩ rfl) 0
-    (SInv_init _ w frames) (by simpa using hauth) (Nat.zero_le _)
-  rw [h1, List.range_eq_range']
-  have : plen frames = m + (plen frames - m) := by omega
-  rw [this, ← List.range'_append_1]
-  simp only [Nat.zero_add]
-  exact List.prefix_append _ _
+/-- **read_stream_eq.** `frames` are the writer's chunks (consecutive, `1 … MAX_FRAME_LEN` bytes,
+see `write_stream_eq`), the carrier transports their wire image. For every `F ≥ 1` and every
+environment `es` (deliveries in any chunking, scripts for the inner `poll_read`, `close`, polls with any
+buffer lengths):
 
-/-- Non-vacuity: the honest wire of two frames is authentic in the term model. -/
+1. if what is delivered is a prefix of the wire, the bytes returned are a prefix of the plaintext
+   (positions `0,1,2,…`: in order, no loss, no duplication) and nothing panics;
+2. if all of the wire is delivered by a carrier that never fails (`GoodEnv`: script entries are
+   `Pending` or chunk caps ≥ 1, `close` only after the last byte), then
+   a. the only error the reader can ever see is `UnexpectedEof`, only after `close`, and only after
+      **all** of the plaintext has been returned;
+   b. if the reader goes on polling with non-empty buffers — `plen frames + scriptLen es` polls suffice,
+      one per byte still to come plus one per possible `Pending` — **all** of the plaintext comes out:
+      the output equals `0 … plen frames - 1`. -/
+theorem read_stream_eq {C : Type} (w : WireOps C) (F W : Nat) (hF : 1 ≤ F)
+    (hl : WireLaws (realParams F W) w) (frames : List Chunk) (hfr : FramesFrom (realParams F W).MAXF 0 frames)
+    (hauth : Authentic w frames (wireOf w (realParams F W).T 0 frames)) (es : List (REvent C)) :
+    (delivered es <+: wireOf w (realParams F W).T 0 frames →
+      outBytes (freshRun (realParams F W) w es) <+: List.range (plen frames) ∧
+      NoPanic (freshRun (realParams F W) w es)) ∧
+    (delivered es = wireOf w (realParams F W).T 0 frames → GoodEnv es →
+      (∀ e, ROut.err e ∈ freshRun (realParams F W) w es →
+        e = .eof ∧ Closes es ∧ outBytes (freshRun (realParams F W) w es) = List.range (plen frames)) ∧
+      (∀ ks : List Nat, (∀ k ∈ ks, 1 ≤ k) → plen frames + scriptLen es ≤ ks.length →
+        outBytes (freshRun (realParams F W) w (es ++ ks.map .poll)) = List.range (plen frames))) := by
+  have sc := Scene.honest hl ((real_params_ok F W).2 hF) hfr hauth
+  have hS : startOf frames frames.length = plen frames := by simp [startOf]
+  refine ⟨fun hd => ?_, fun hd hge => ⟨fun e he => ?_, fun ks hk hb => ?_⟩⟩
+  · have := fresh_safe sc es hd
+    rw [hS] at this; exact this
+  · obtain ⟨i1, _, _⟩ := fresh_complete sc es hd hge [] (by simp)
+    simp only [List.map_nil, List.append_nil] at i1
+    obtain ⟨j1, j2⟩ := i1 e he
+    rw [hS] at j1
+    cases e with
+    | eof => exact ⟨rfl, j2, j1⟩
+    | invalidData => simp [Cause] at j2
+    | permissionDenied => exact j2.elim
+    | carrier => exact j2.elim
+  · have := (fresh_complete sc es hd hge ks hk).2.1
+    rw [hS] at this; exact this hb
+
+/-- Non-vacuity: the honest wire of two frames is authentic in the term model, and an environment
+with chunk caps, a `Pending`, a delivery in two pieces and a final `close` is good. -/
 example : Authentic (termWire 16) [⟨0, 3⟩, ⟨3, 2⟩] (wireOf (termWire 16) 16 0 [⟨0, 3⟩, ⟨3, 2⟩]) :=
   Authentic_term_honest 16 (by decide) _
+example : GoodEnv ([.script [.chunk 1, .pend], .deliver [.raw 0, .raw 19], .poll 7, .deliver [.ct 0 0 3 0],
+    .close, .poll 1] : List (REvent TCell)) := by
+  simp [GoodEnv, GoodScript, GoodR, delivered]
 
-/-- **tamper_detected (safety half).** Whatever an attacker does to the ciphertext in transit —
-modify, truncate, replay, drop, reorder, insert, at any granularity (the delivered stream is
-arbitrary; under the ideal-AEAD assumption only the writer's frame `n` decrypts under nonce `n`) —
-the reader never returns a byte that differs from the true plaintext stream at that position,
-never skips and never repeats one, and never panics. (That an error *follows* is not proved in
-Lean; the correspondence run and the oracle check it, see the report.) -/
-theorem tamper_detected_partial {C : Type} (w : WireOps C) (F W : Nat) (hF : 1 ≤ F)
-    (hl : WireLaws (realParams F W) w) (B : Nat) (frames : List Chunk) (hfr : FramesFrom B 0 frames)
-    (es : List (REvent C)) (hauth : Authentic w frames (delivered es)) :
-    let outs := runReader (realParams F W) w (newReadSock (realParams F W) w) ⟨#[], 0, [], false⟩ es
-    outBytes outs <+: List.range (plen frames) ∧ NoPanic outs :=
-  ⟨read_stream_eq_partial w F W hF hl B frames hfr es hauth, read_no_oob w F W hF hl B frames hfr es hauth⟩
+/-- **tamper_detected.** Whatever happens to the ciphertext in transit: write the delivered stream as
+the wire image of the first `j` frames, intact, followed by `rest`, where `rest` does *not* begin with
+the intact frame `j` (`BadAt`; `tamper_cases` shows that this is what modification, truncation,
+replay, drop, reordering and insertion of a frame produce; `j = frames.length` covers bytes appended
+after the last frame). Under the ideal-AEAD assumption `Authentic` (only the writer's frame `n`
+decrypts under nonce `n`; `tamper_instances`), for every `F ≥ 1` and every environment:
+
+1. whatever prefix of the stream is delivered, in any chunking and with any faults of the carrier,
+   the reader's output is a prefix of the plaintext of the `j` intact frames — no byte of the tampered
+   frame or of any later frame, nothing altered, skipped or repeated — and nothing panics;
+2. if the carrier delivers the tampered stream to its end (`GoodEnv`) and either closes (`Closes`) or
+   the frame announced by the first two bytes of `rest` is completely there (`CompleteAt`: the reader
+   need not wait for more data to judge it — a cut stream on a carrier that stays open is
+   indistinguishable from a slow one), and the reader goes on polling with non-empty buffers, the run
+   is **exactly the plaintext of the `j` intact frames followed by an error** (`InvalidData`, or
+   `UnexpectedEof` if the stream was cut): never silence, never later plaintext. -/
+theorem tamper_detected {C : Type} (w : WireOps C) (F W : Nat) (hF : 1 ≤ F)
+    (hl : WireLaws (realParams F W) w) (frames : List Chunk) (hfr : FramesFrom (realParams F W).MAXF 0 frames)
+    (j : Nat) (hj : j ≤ frames.length) (rest : List C) (hbad : BadAt w frames j rest)
+    (hauth : Authentic w frames (wireOf w (realParams F W).T 0 (frames.take j) ++ rest))
+    (es : List (REvent C)) :
+    (delivered es <+: wireOf w (realParams F W).T 0 (frames.take j) ++ rest →
+      outBytes (freshRun (realParams F W) w es) <+: List.range (plen (frames.take j)) ∧
+      NoPanic (freshRun (realParams F W) w es)) ∧
+    (delivered es = wireOf w (realParams F W).T 0 (frames.take j) ++ rest → GoodEnv es →
+      Closes es ∨ CompleteAt w rest →
+      ∀ ks : List Nat, (∀ k ∈ ks, 1 ≤ k) → plen (frames.take j) + scriptLen es + 1 ≤ ks.length →
+        ∃ pre e, freshRun (realParams F W) w (es ++ ks.map .poll) = pre ++ [.err e] ∧
+          (e = .eof ∨ e = .invalidData) ∧ outBytes pre = List.range (plen (frames.take j))) := by
+  have sc : Scene (realParams F W) w frames j rest (wireOf w (realParams F W).T 0 (frames.take j) ++ rest) :=
+    { laws := hl, consts := (real_params_ok F W).2 hF, frs := hfr, hj := hj, full_eq := rfl, bad := hbad,
+      auth := hauth }
+  refine ⟨fun hd => fresh_safe sc es hd, fun hd hge hcl ks hk hb => ?_⟩
+  obtain ⟨i1, _, i3⟩ := fresh_complete sc es hd hge ks hk
+  obtain ⟨pre, e, hpe⟩ := i3 hcl hb
+  obtain ⟨j1, j2⟩ := i1 e (by rw [hpe]; simp)
+  refine ⟨pre, e, hpe, ?_, ?_⟩
+  · cases e with
+    | eof => exact Or.inl rfl
+    | invalidData => exact Or.inr rfl
+    | permissionDenied => exact j2.elim
+    | carrier => exact j2.elim
+  · rw [hpe, outBytes_append_err] at j1; exact j1
+
+/-- **tamper_cases.** When does `rest` "not begin with the intact frame `j`"? Whenever the ciphertext
+of the writer's `j`-th chunk under nonce `j` does not follow the two length bytes — because a byte of
+it was modified, because it was cut short, or because another frame (an earlier one = replay, a later
+one = drop / reordering, a foreign one = insertion) stands in its place; whenever fewer than two bytes
+follow; and whenever there is no frame `j` at all (bytes appended after the last frame). -/
+theorem tamper_cases {C : Type} (w : WireOps C) (frames : List Chunk) (j : Nat) (rest : List C) :
+    ((∀ ch, frames[j]? = some ch → ¬ w.enc j ch <+: rest.drop 2) → BadAt w frames j rest) ∧
+    (rest.length < 2 → BadAt w frames j rest) ∧
+    (frames.length ≤ j → BadAt w frames j rest) :=
+  ⟨BadAt_of_not_prefix w frames j rest, BadAt_short w frames j rest, BadAt_end w frames j rest⟩
+
+/-- Non-vacuity in the term model, frames `[(0,1), (1,1)]`, tampering at `j = 1`: a flipped tag
+byte; truncation by one byte followed by nothing; replay of frame 0; and at `j = 0`: frame 0 dropped
+(frame 1 stands in its place) — each satisfies `BadAt`. -/
+example : BadAt (termWire 16) [⟨0, 1⟩, ⟨1, 1⟩] 1
+    ((frameBytes (termWire 16) 16 1 ⟨1, 1⟩).set 18 (.mod (.ct 1 1 1 16) 1)) :=
+  BadAt_of_not_prefix _ _ _ _ (by intro ch h; cases h; decide)
+example : BadAt (termWire 16) [⟨0, 1⟩, ⟨1, 1⟩] 1 ((frameBytes (termWire 16) 16 1 ⟨1, 1⟩).take 18) :=
+  BadAt_of_not_prefix _ _ _ _ (by intro ch h; cases h; decide)
+example : BadAt (termWire 16) [⟨0, 1⟩, ⟨1, 1⟩] 1 (frameBytes (termWire 16) 16 0 ⟨0, 1⟩) :=
+  BadAt_of_not_prefix _ _ _ _ (by intro ch h; cases h; decide)
+example : BadAt (termWire 16) [⟨0, 1⟩, ⟨1, 1⟩] 0 (frameBytes (termWire 16) 16 1 ⟨1, 1⟩) :=
+  BadAt_of_not_prefix _ _ _ _ (by intro ch h; cases h; decide)
+/-- ... and the replayed frame is completely there: the error comes without waiting for `close`. -/
+example : CompleteAt (termWire 16) (frameBytes (termWire 16) 16 0 ⟨0, 1⟩) :=
+  ⟨_, _, _, rfl, by decide, by decide⟩
+example : Closes ([.deliver [.raw 0], .close, .poll 1] : List (REvent TCell)) := trivial
 
 /-- **tamper_instances.** In the term model the integrity hypothesis `Authentic` holds for *every*
 stream all of whose ciphertext cells stem from the writer's frames — i.e. for every result of
@@ -164,25 +255,37 @@ example : Authentic (termWire 16) [⟨0, 1⟩]
   obtain ⟨j, hj, h1, h2, h3, h4⟩ := h
   subst h1 h2 h3; rfl
 
-/-- **write_read_roundtrip (prefix half).** Writer ∘ FIFO carrier ∘ reader: in any reachable writer
-state, if what the carrier delivers to the reader (in any chunking, with any `Pending`s) is a prefix
-of what the writer handed to the carrier, then the reader's output is a prefix of the `wpos`
-plaintext bytes accepted by `poll_write`, and the reader never panics. -/
-theorem write_read_roundtrip_partial {C : Type} (w : WireOps C) (F W : Nat) (hF : 1 ≤ F)
+/-- **write_read_roundtrip.** Writer ∘ FIFO carrier ∘ reader, from any reachable writer state
+(`WSInv`: `wpos` bytes accepted by `poll_write` so far, see `write_stream_eq`):
+
+1. if what the carrier delivers to the reader (any chunking, any `Pending`s, any faults) is a prefix
+   of what the writer handed to the carrier, the reader's output is a prefix of the `wpos` accepted
+   bytes and the reader never panics;
+2. after the writer's `poll_flush` returned `Ok`, if the carrier never fails and delivers everything it
+   got, the reader sees no error except `UnexpectedEof` after `close` and after all `wpos` bytes, and
+   by polling with non-empty buffers it obtains **exactly the `wpos` bytes accepted by `poll_write`**. -/
+theorem write_read_roundtrip {C : Type} (w : WireOps C) (F W : Nat) (hF : 1 ≤ F)
     (hl : WireLaws (realParams F W) w) (s : WriteSock C) (c : WCarrier C) (frames : List Chunk) (wpos : Nat)
     (hw : WSInv (realParams F W) w s c frames wpos)
     (hauth : Authentic w frames (wireOf w (realParams F W).T 0 frames))
-    (es : List (REvent C)) (hfifo : delivered es <+: c.out.toList) :
-    let outs := runReader (realParams F W) w (newReadSock (realParams F W) w) ⟨#[], 0, [], false⟩ es
-    outBytes outs <+: List.range wpos ∧ NoPanic outs := by
-  obtain ⟨rest, hrest⟩ := hfifo
-  have ha : Authentic w frames (delivered es) := by
-    apply Authentic_prefix w frames _ (rest ++ wtail s)
-    rw [← List.append_assoc, hrest, hw.stream]
-    exact hauth
-  have := tamper_detected_partial w F W hF hl _ frames hw.frs es ha
-  rw [hw.total] at this
-  exact this
+    (es : List (REvent C)) :
+    (delivered es <+: c.out.toList →
+      outBytes (freshRun (realParams F W) w es) <+: List.range wpos ∧ NoPanic (freshRun (realParams F W) w es)) ∧
+    ((∃ k, (pollFlush s c).2.2 = .ok k) → delivered es = (pollFlush s c).2.1.out.toList → GoodEnv es →
+      (∀ e, ROut.err e ∈ freshRun (realParams F W) w es →
+        e = .eof ∧ Closes es ∧ outBytes (freshRun (realParams F W) w es) = List.range wpos) ∧
+      (∀ ks : List Nat, (∀ k ∈ ks, 1 ≤ k) → wpos + scriptLen es ≤ ks.length →
+        outBytes (freshRun (realParams F W) w (es ++ ks.map .poll)) = List.range wpos)) := by
+  have hr := read_stream_eq w F W hF hl frames hw.frs hauth es
+  rw [hw.total] at hr
+  refine ⟨fun hd => hr.1 ?_, fun ⟨k, hk⟩ hd => hr.2 ?_⟩
+  · obtain ⟨t, ht⟩ := hd
+    exact ⟨t ++ wtail s, by rw [← List.append_assoc, ht, hw.stream]⟩
+  · rw [hd]
+    exact (pollFlush_spec (realParams F W) w s c frames wpos hw).2.2.2 k hk
+
+/-- Non-vacuity: in the initial state a flush succeeds at once (nothing to write). -/
+example : ∃ k, (pollFlush (newWriteSock (realParams 5 2) (termWire 16)) ⟨#[], []⟩).2.2 = .ok k := ⟨0, rfl⟩
 
 #print axioms term_model_laws
 #print axioms real_params_ok
@@ -190,9 +293,10 @@ theorem write_read_roundtrip_partial {C : Type} (w : WireOps C) (F W : Nat) (hF 
 #print axioms write_total
 #print axioms write_stream_eq
 #print axioms read_no_oob
-#print axioms read_stream_eq_partial
-#print axioms tamper_detected_partial
+#print axioms read_stream_eq
+#print axioms tamper_detected
+#print axioms tamper_cases
 #print axioms tamper_instances
-#print axioms write_read_roundtrip_partial
+#print axioms write_read_roundtrip
 
 end Litep2pVerif.Props.C02
